@@ -32,6 +32,9 @@ class ConnPlan:
     cut_after: int = 0             # payload bytes delivered in that direction before the cut
     cut_mode: str = 'rst'          # rst | eof | blackhole
     note: str = ''
+    yield_steps: int = 0           # extra zero-time loop steps before the connect completes
+    gate: Any = None               # asyncio.Event the connect waits for (rendezvous with another path)
+    on_connected: Any = None       # callback() when the connect is about to return
 
 
 class SimListener:
@@ -406,6 +409,10 @@ class SimNet:
             if plan.connect == 'hang':
                 await self.loop.create_future()
             await asyncio.sleep(plan.latency)
+            if plan.gate is not None:
+                await plan.gate.wait()
+            for _ in range(plan.yield_steps):
+                await asyncio.sleep(0)
         except asyncio.CancelledError:
             entry['outcome'] = 'cancelled'
             raise
@@ -416,6 +423,8 @@ class SimNet:
         conn = self._make_conn(node, lst, host, port, plan)
         entry['outcome'] = 'connected'
         entry['conn'] = conn.id
+        if plan.on_connected is not None:
+            plan.on_connected()
         if plan.connect == 'reset':
             # established, then reset before the dialer gets to write: its first write / drain fails
             conn.cut_done = True
